@@ -254,3 +254,45 @@ def rule_level_sync(ctx):
                 R.fail(iid, where(f, bad.line), Finding(R.rule, f["file"], q, "empty-set", "after `%s` (the set is empty) the lookup can still return something other than false: index 0 of the empty set is reported as found" % bad.cond["text"], bad.line))
     R.require_floor(4, "index-lookup walks")
     return R
+
+
+def rule_event_level(ctx):
+    """saturation over a partitioned relation files each relation under the level of its top variable and, when saturating a node of level k, unpacks the
+    relations filed under k *as nodes of level k*.  The union of the relations filed under k (by levels), or what is left after splitting, may have
+    dropped below k: the choice between initFromNode and the redundant expansion must compare the relation's level with k, not merely test its sign"""
+    import re
+    P = ctx.program
+    R = RuleResult("guard.event-level", "in the saturateHelper functions of saturation by events / by levels, an event relation is unpacked with initFromNode only under a condition that compares its level with the level being saturated; every other case takes the redundant expansion")
+    n = 0
+    seen = set()
+    for f in sorted(P.fns.values(), key=lambda f: (f["file"], f["line"], f["inst"])):
+        if not f.get("cfg") or f["file"] not in ("operations/sat_pregen.cc", "operations/sat_otf.cc", "operations/sat_hyb.cc") or not f["q"].endswith("::saturateHelper") or (f["file"], f["line"]) in seen:
+            continue
+        seen.add((f["file"], f["line"]))
+        g = Graph(f)
+        cur = {re.sub(r"\s+", "", x) for x in ("nb.getLevel()", "level")}
+        cur |= {k.ev["var"] for k in g.nodes if k.kind == "ldef" and re.sub(r"\s+", "", k.ev.get("rhs", "") or "") == "nb.getLevel()"}
+        for k in g.nodes:
+            if k.kind != "call" or not qmatch(k.ev["q"], "unpacked_node::initFromNode") or not re.search(r"getNode\(\)", (k.ev.get("args") or [""])[-1]) or "[" not in str(k.ev.get("recv")):
+                continue
+            n += 1
+            R.functions.add(f["inst"])
+            R.paths += 1
+            conds = []
+            for c in g.nodes:
+                if c.kind != "branch" or not c.cond or len(c.succ) != 2:
+                    continue
+                arms = [i for s_, i in c.succ if k.id in g.reach([s_], avoid=lambda x, c=c: x.id == c.id)]
+                if len(arms) == 1:
+                    conds.append(re.sub(r"\s+", "", c.cond["text"]))
+            iid = "%s: %s->initFromNode(%s)" % (base_name(f["q"]).replace(M, ""), re.sub(r"\s+", "", str(k.ev.get("recv"))), k.ev["args"][-1])
+            if any(re.search(r"[Ll]evel", t) and any(re.search(r"(?<![\w.])%s(?![\w(])" % re.escape(c_), t) or c_ in t for c_ in cur if c_) and re.search(r"==|!=|<|>", t) and
+                   len(re.findall(r"[Ll]evel", t)) >= 2 for t in conds):
+                R.ok(iid, where(f, k.line))
+            else:
+                R.fail(iid, where(f, k.line), Finding(R.rule, f["file"], base_name(f["q"]), "initFromNode(%s)" % re.sub(r"\s+", "", k.ev["args"][-1]),
+                       "the event relation is unpacked as a node of the level being saturated under %s, which does not compare its level with that level: when the union of the relations filed under this level (or the remainder after splitting) no longer depends on this level's variable, its rows are read from a lower node" % (conds or "no condition"), k.line))
+    if n < 3:
+        raise AnalysisBroken("guard.event-level: expected ≥3 event unpack sites in the saturateHelper functions, found %d" % n)
+    R.require_floor(3, "event unpack sites")
+    return R
